@@ -40,6 +40,15 @@ func (h *HostLog) Func(name string) (interface{}, bool) {
 		return func(x interface{}) (interface{}, error) { h.add("rec", x); return x, nil }, true
 	case "id":
 		return func(x interface{}) (interface{}, error) { return x, nil }, true
+	case "crec":
+		return func(ctx context.Context, x interface{}) (interface{}, error) { h.add("crec", x); return x, nil }, true
+	case "cstr":
+		return func(ctx context.Context, s fmt.Stringer) (string, error) {
+			if s == nil {
+				return "", nil
+			}
+			return s.String(), nil
+		}, true
 	case "fail":
 		return func(x interface{}) (interface{}, error) { h.add("fail", x); return nil, errors.New("host failure") }, true
 	case "failv":
